@@ -115,6 +115,7 @@ func init() {
 		de.RunSources(r, "DET-SOURCE", scope)
 		RunPoolUAF(p, r, compileScopePkg)
 		RunStateReset(p, r)
+		RunStateHook(p, r)
 		r.RequireMin("STATE-RESET", 9)
 		r.RequireMin("POOL-UAF", 3)
 		r.RequireMin("DET-MAPRANGE", 20)
